@@ -61,7 +61,7 @@ prop("C04",
      note="Assumes the tape view contracts (checked, bounded, in unit u2_tape), the Context::input/output oracle contracts (u2_tape) and the CellType ring contracts (proved in u1_cell; copied verbatim). Trusted: the canonical semantics in the unit template, vstd's str::as_bytes spec, Verus+Z3. A BOUNDED native twin (unit n7_inplace: the real interpreter through the public API on all balanced programs of <= 5 commands and a long-run family, against canonical semantics written out in the test) runs next to the proof so that a RESTRUCTURED interpreter loop, for which the shape-anchored proof is only UNDECIDED, still gets a verdict; counted separately, never as proved.")
 
 prop("C07",
-     units=[("verus", "u7_inplace", r"#limited"), ("kani", "u5_bcint_ops", None), ("kani", "u6_jit", None), ("kani", "u8_irint", None), ("native", "n1_emit", None), ("native", "n7_inplace", None)],
+     units=[("verus", "u7_inplace", r"#limited"), ("kani", "u5_bcint_ops", None), ("kani", "u6_jit", None), ("kani", "u8_irint", None), ("native", "n1_emit", None), ("native", "n7_inplace", None), ("native", "n9_bcint_exec", None)],
      level="model_checking",
      technique="Verus deductive proof of the LIMITED=true monomorphisation of the real in-place interpreter (simulation invariant + termination measure); Kani contract harnesses for the bytecode interpreter's limit op",
      design_ref="DESIGN.md section 4-U7, 5-C07",
@@ -77,7 +77,7 @@ prop("C08",
      note="The JIT's generated call sequences around Inp/Out (argument set-up, push/pop symmetry, alignment, jump to the termination path iff the shim reports failure) are decided by unit u6 for enumerated cell offsets / live masks over all machine states. NOT decided: llvmjit (feature off); irint Calc arm. A BOUNDED native twin (unit n7_inplace: the real interpreter through the public API on all balanced programs of <= 5 commands and a long-run family, against canonical semantics written out in the test) runs next to the proof so that a RESTRUCTURED interpreter loop, for which the shape-anchored proof is only UNDECIDED, still gets a verdict; counted separately, never as proved.")
 
 prop("C02",
-     units=[("kani", "u5_bcint_ops", None), ("kani", "u9_bc_passes", None), ("native", "n1_emit", None), ("native", "n2_bc_passes", None)],
+     units=[("kani", "u5_bcint_ops", None), ("kani", "u9_bc_passes", None), ("native", "n1_emit", None), ("native", "n2_bc_passes", None), ("native", "n9_bcint_exec", None)],
      level="model_checking",
      technique="Kani contract harnesses calling each threaded-op instantiation of the real bcint::ops directly on a symbolic machine state and comparing the whole post-state with a bytecode step semantics",
      design_ref="DESIGN.md section 4-U5, 5-C02",
@@ -93,12 +93,12 @@ prop("C06",
      note="Relative to C11 (operands inside the declared window, temp index < temps). Proved (Verus unit u11_window): the two primitives of the window analysis, bc::Analysis::{accessed, written}, put every offset they are given inside [min_accessed, max_accessed] and only ever grow the window. The traversal that feeds them (Analysis::analyze) and the rest of C11 are not discharged by a verifier -- covered ONLY by a BOUNDED STAND-IN (unit n2_bc_passes/translate_shape: the window, temporaries count and branch targets of the bytecode bc::CodeGen::translate generates for a fixed pseudo-random sample of IR programs; counted separately, never as proved). The JIT's checked move (probe of the far window edge against the context's bounds, extend call, pointer re-basing) is decided by unit u6 over all tape geometries. The bytecode interpreter's checked LEFT move/scan that grows below (pointer before the allocation start is not representable in CBMC) and its checked scan loop (Kani timeout) are covered ONLY by a BOUNDED STAND-IN: unit n5_checked_moves runs the real movl/movr/scanl/scanr::<_, true> under MIRI on enumerated tape geometries, windows, shifts and run lengths (Miri reports any access outside a live allocation) and checks pointer displacement, view preservation and window accessibility; counted separately, never as proved. Likewise unit n8_trip_counts for the consumer: the trip count of every 8-bit counting loop (all start values x all increments, boundary pairs at the wider widths), observed end to end on the optimised program (IR and bytecode interpreters, levels 1-3).")
 
 prop("C10",
-     units=[("kani", "u5_bcint_ops", None), ("kani", "u6_jit", None)],
+     units=[("kani", "u5_bcint_ops", None), ("kani", "u6_jit", None), ("native", "n9_bcint_exec", None)],
      level="model_checking",
      technique="Kani contract harnesses on the SAFE=false instantiations of the real move/scan ops: same post-state as the checked ops and no access outside the allocation when the destination window lies inside it",
      design_ref="DESIGN.md section 4-U5, 5-C10",
      text="Op level only: unchecked movl/movr/scanl/scanr move the pointer by the shift, preserve the view and the window invariant, and touch nothing outside the block, whenever every visited window lies inside the allocation.",
-     note="NOT decided: that a bounded canonical pointer excursion keeps the optimised program inside the margin (needs C01), the CLI's pre-allocation (C16), the JIT's unchecked mode unless unit u6 is listed.")
+     note="NOT decided: that a bounded canonical pointer excursion keeps the optimised program inside the margin (needs C01), the CLI's pre-allocation (C16), the JIT's unchecked mode unless unit u6 is listed. How the unchecked ops are strung together (op selection in build_threaded_code / emit, branch patching, any fused op) is covered ONLY by a BOUNDED STAND-IN (unit n9_bcint_exec: BcInterpreter::execute_unsafe on enumerated small bytecode programs with a pre-grown tape, against bc_step; counted separately, never as proved).")
 
 prop("C15",
      units=[("verus", "u4_expr", None), ("native", "n3_expr_ops", None)],
